@@ -136,6 +136,49 @@ def specPart (o : Output) (rq : Request) : List (String × List Rat) :=
           (((p.perCpu.getD (c - 1) default).cols.getD iv.1 []).map (· * (scaleOf Reference.unitsLib o iv.2.1).factor)))
       else none
 
+def mergesJson (m : List (String × List String)) : Json :=
+  Json.arr (m.map fun e => Json.arr #[Json.str e.1, Json.arr (e.2.map Json.str).toArray]).toArray
+
+/-! ### sinks (`SinkReader.initialize`) -/
+
+/-- one factor of a code-unit expression: `m`, `l`, `t`, optionally `**k` -/
+def parseFactor (tok : String) : Option (Char × Int) :=
+  match tok.splitOn "**" with
+  | [s] => match s.toList with
+    | [c] => if c == 'm' || c == 'l' || c == 't' then some (c, 1) else none
+    | _ => none
+  | [s, k] => match s.toList, k.toInt? with
+    | [c], some e => if c == 'm' || c == 'l' || c == 't' then some (c, e) else none
+    | _, _ => none
+  | _ => none
+
+/-- the unit of one sink column: `none` = not understood (the case generator never produces it) -/
+def sinkUnit (lib : List LibEntry) (o : Output) (legacy : String → Option (Rat × Sym)) (u : String) :
+    Option (Rat × Sym) :=
+  let t := (u.trimAscii.toString.replace "[" "").replace "]" ""
+  if t == "1" then some (1, [])
+  else if u.contains '[' && u.contains ']' then legacy t
+  else
+    let toks := (u.trimAscii.toString.splitOn " ").filter (· != "")
+    let base (c : Char) : Rat × Sym :=
+      let nm := if c == 'm' then "mass" else if c == 'l' then "length" else "time"
+      let sc := scaleOf lib o nm
+      (sc.factor, sc.label)
+    toks.foldlM (fun (acc : Rat × Sym) tok => do
+      let (c, e) ← parseFactor tok
+      let b := base c
+      pure (acc.1 * b.1 ^ e, Sym.mul acc.2 (Sym.smul (e : Rat) b.2))) (1, [])
+
+def sinkCols (lib : List LibEntry) (o : Output) (legacy : String → Option (Rat × Sym)) :
+    Option (List (String × List Rat × Sym)) :=
+  match o.sink with
+  | none => none
+  | some s =>
+    if s.emptyFile then some [] else
+    (List.zip (List.range s.keys.length) (List.zip s.keys s.units)).mapM fun (p : Nat × (String × String)) => do
+      let (f, sym) ← sinkUnit lib o legacy p.2.2
+      pure (p.2.1, s.rows.map (fun row => row.getD p.1 0 * f), sym)
+
 /-! ### JSON out -/
 
 def colsJson (cols : List (String × List Rat)) : Json :=
@@ -165,9 +208,6 @@ def logJson (l : List Req) : Json :=
   Json.arr (l.map fun r => Json.arr #[Json.num (JsonNumber.fromNat r.off), Json.str r.ty.key,
     Json.num (JsonNumber.fromNat r.mult), Json.bool r.skipHead]).toArray
 
-def mergesJson (m : List (String × List String)) : Json :=
-  Json.arr (m.map fun e => Json.arr #[Json.str e.1, Json.arr (e.2.map Json.str).toArray]).toArray
-
 def splitCols (cols : List (String × List Rat)) (pfx : String) : List (String × List Rat) :=
   cols.filterMap fun c => if c.1.startsWith pfx then some ((c.1.drop pfx.length).toString, c.2) else none
 
@@ -187,6 +227,21 @@ def run (j : Json) : Json :=
         [("files", Json.arr (cpus.map fun c => Json.mkObj (kinds.map fun k =>
             (k.1, Json.mkObj [("skeleton", skeletonJson (k.2 c)), ("checksum", checksum (k.2 c))]))).toArray)]
       else []
+    let legacy (t : String) : Option (Rat × Sym) :=
+      -- legacy bracket units are catalogue units (not code units): their symbolic container is passed in
+      match (getArr? j "legacy_units").getD [] |>.find? (fun e => getStr? e "name" == some t) with
+      | some e => match getArr? e "sym" with
+        | some l => (l.mapM fun (x : Json) => match x with
+            | .arr #[.str n, q] => (jsonToRat? q).map fun r => (n, r)
+            | _ => none).map fun sym => ((1 : Rat), sym)
+        | none => none
+      | none => none
+    let sinkJ (lib : List LibEntry) : List (String × Json) :=
+      match sinkCols lib o legacy with
+      | none => [("sink", Json.null)]
+      | some cols => [("sink", Json.arr (cols.map fun c => Json.arr #[Json.str c.1, ratsToJson c.2.1,
+          Json.arr (c.2.2.map fun p => Json.arr #[Json.str p.1, ratToJson p.2]).toArray]).toArray),
+          ("sink_merges", mergesJson (vectorMerges (cols.map (·.1)) o.ndim).1)]
     if spec then
       let mesh := if rq.meshOn then leafCols o rq else []
       let part := specPart o rq
@@ -197,7 +252,7 @@ def run (j : Json) : Json :=
         ("mesh_scale", scaleJson Reference.unitsLib o meshKeys),
         ("part_scale", scaleJson Reference.unitsLib o (part.map (·.1))),
         ("mesh_merges", mergesJson mg.1), ("part_merges", mergesJson pmg.1),
-        ("lmax", Json.num (JsonNumber.fromNat (lmaxOf o rq.preds)))] ++ filesJ)
+        ("lmax", Json.num (JsonNumber.fromNat (lmaxOf o rq.preds)))] ++ sinkJ Reference.unitsLib ++ filesJ)
     else
       let cs := mkCase Generated.unitsLib o rq
       match Loader.load cs with
@@ -214,7 +269,8 @@ def run (j : Json) : Json :=
           ("mesh_merges", mergesJson mg.1), ("part_merges", mergesJson pmg.1),
           ("ncells", Json.num (JsonNumber.fromNat st.ncells)), ("nparticles", Json.num (JsonNumber.fromNat st.nparticles)),
           ("lmax", Json.num (JsonNumber.fromNat cs.lmax)),
-          ("logs", Json.arr (st.logs.map fun l => Json.arr #[Json.str l.1, logJson l.2]).toArray)] ++ filesJ)
+          ("logs", Json.arr (st.logs.map fun l => Json.arr #[Json.str l.1, logJson l.2]).toArray)] ++
+          sinkJ Generated.unitsLib ++ filesJ)
   | _, _ => errJson .badOp
 
 end Osyris.LoadEngine
